@@ -582,10 +582,7 @@ func (x *Exec) builtin(fr *Frame, st *State, site ssa.Instruction, c *ssa.CallCo
 		case *types.Basic:
 			return Val{T: x.intToIdx(Term{app("strlen", a.T), "Int"}), Typ: rt}
 		case *types.Map:
-			x.declUF("maplen", "(Int) Int")
-			r := Term{app("maplen", a.T), "Int"}
-			x.assume(Term{app(">=", r, intLit(0)), "Bool"})
-			return Val{T: x.intToIdx(r), Typ: rt}
+			return Val{T: x.intToIdx(x.mapLen(st, a.T, u)), Typ: rt}
 		case *types.Array:
 			return Val{T: x.S.IdxLit(u.Len()), Typ: rt}
 		case *types.Pointer:
